@@ -1,9 +1,11 @@
 """C23  Coordinate conversions and symmetry actions are mutually consistent."""
 import os
+import sys
 
 import numpy as np
 from hypothesis import strategies as st
 
+from .. import core
 from ..core import Violation, HarnessError, require, canon
 from ..strategies import crystals as cs, values as vs
 from ..oracles import geom
@@ -328,14 +330,30 @@ def _catalogue_cases():
     return out
 
 
+def as_violation(fn):
+    """library exceptions -> Violation (the framework does this inside given/cases, but not inside ctx.known)"""
+    def inner(case):
+        try:
+            return fn(case)
+        except (Violation, HarnessError):
+            raise
+        except Exception as e:
+            tb = sys.exc_info()[2]
+            frame = core.library_frame(tb)
+            if frame is None or core.innermost_is_harness(tb):
+                raise
+            raise Violation("unexpected %s in %s: %s" % (type(e).__name__, frame, str(e)[:300]))
+    return inner
+
+
 def run(ctx):
     ctx.corpus(check)
     base = _catalogue_cases()
     if ctx.quick:
         base = base[::2]
     ctx.cases([c for i, c in enumerate(base) if ctx.mine(i)], check, label="catalogue")
-    ctx.known(check)
-    ctx.given(cases(), check, quick=1200, thorough=40000)
+    ctx.known(as_violation(check))
+    ctx.given(cases(), check, quick=900, thorough=40000)
     if EXCLUDE_FROMCRYSUNIT:
         ctx.exclude("fromcrysunit", ctx.evaluations)   # every case would exercise the broken route on its atomic positions
 
